@@ -5,7 +5,7 @@ from __future__ import annotations
 import ast
 
 from sa.cfg import cfg_of
-from sa.effects import nondeterminism_sources
+from sa.effects import nondeterminism_sources, param_mutations
 from sa.facts import result_sites
 from sa.guards import GuardView, atom_of, names_in, or_parts
 from sa.index import own_nodes
@@ -363,6 +363,8 @@ def check_determinism(ctx: Ctx, f, seeded: bool):
         ctx.ob("C19-O5", "R8 DETERMINISM", f, "all random draws go through the seeded generator", not other, f"{[ast.unparse(o) for o in other]}", node=f.node)
     else:
         ctx.ob("C19-O5", "R8 DETERMINISM", f, "seedless solver builds no random generator", not rnd, "", node=f.node)
+    muts = param_mutations(ctx.repo, f, set(f.params))
+    ctx.ob("C19-O5", "R17 PARAM-IMMUTABLE", f, "no argument object is modified in place (neither directly nor through an alias or a helper)", not muts, "; ".join(f"{g.qualname}: {k} on `{p_}` (line {n.lineno})" for g, p_, k, n in muts[:3]) + " - the caller's object comes back changed, so the same call repeated with the same argument objects and seed starts from different data", node=muts[0][3] if muts else f.node)
     pu = possibly_undefined(f)
     ctx.ob("C19-O5", "R31 DEFINED-ON-ALL-PATHS", f, "every local read is bound on all paths (zero iterations included)", not pu, "; ".join(f"`{nm}` at line {rd.lineno} may be unbound" for nm, rd in pu), node=f.node)
 
@@ -791,7 +793,26 @@ def _v_nm_greedy_expansion(tree):
 
 from .c18 import _t_alns_hoisted_user_values  # noqa: E402
 
+
+def _v_alns_weights_aliased(tree):
+    g = M.find_func(tree, "alns")
+    M.replace_expr(g, lambda e: M.src_is(e, "list(destroy_weights) if destroy_weights else [1.0] * n_destroy"), M.expr("destroy_weights or [1.0] * n_destroy"))
+
+
+def _t_alns_weights_copied_after_or(tree):
+    g = M.find_func(tree, "alns")
+    M.replace_expr(g, lambda e: M.src_is(e, "list(destroy_weights) if destroy_weights else [1.0] * n_destroy"), M.expr("list(destroy_weights or [1.0] * n_destroy)"))
+
+
+def _v_anneal_seed_truthiness(tree):
+    g = M.find_func(tree, "anneal")
+    M.replace_expr(g, lambda e: M.src_is(e, "Random(seed)"), M.expr("Random(seed) if seed else Random()"))
+
+
 VARIANTS = [
+    M.Variant("alns adapts the caller's weight list in place (seed C19-I)", LN, _v_alns_weights_aliased, "C19-O5"),
+    M.Variant("twin: alns copies its weights after the `or` default", LN, _t_alns_weights_copied_after_or, None),
+    M.Variant("anneal treats seed=0 as unseeded (seed C19-J)", AN, _v_anneal_seed_truthiness, "C19-O5"),
     M.Variant("nelder_mead keeps the expansion whenever it beats the best vertex (seed C19-A)", NM, _v_nm_greedy_expansion, "C19-O3"),
 
     M.Variant("lns best update nested under the acceptance callable (original defect)", LN, _v_lns_under_accept, "C19-O3"),
